@@ -20,6 +20,7 @@ type Config struct {
 	PreemptPermyr  int  // chance of pre-empting at a write call when Interleave
 	CacheLagMaxMs  int  // 0 = synchronous informer delivery (fresh cache)
 	EnvDelayMaxMs  int  // reaction delay of workload-controller models
+	GCLagMaxMs     int  // lag of the garbage collector
 	ReadyDelayMaxS int  // pod readiness delay (seconds)
 	ShuffleLists   bool // permute List results of caches
 	// faults (permyriad per eligible call unless stated)
